@@ -16,7 +16,7 @@ pub fn mon() -> Mon {
         run,
         finish,
         replay,
-        rule: "Receive corpus (all message types, requests and responses, valid and invalid; same systematic sweeps as C10 plus random mixture) on long-lived contexts in varied states. For each input decode_packet(x) and then process_packet(x, rb) run on the same context, rb being 64..300 bytes of seeded random poison. Oracle: same message type and payload (offset and length inside the input) or same error value; Some(len) only when decoding succeeded on a control message with the request bit set, len <= rb.len(), rb[len..] == poison; otherwise rb == poison entirely. A process_packet panic on an input that decodes fine is a refuting event keyed by the byte-determined input class. Non-trivial = input judged with both results present; distinct = distinct input byte strings.",
+        rule: "Receive corpus (all message types, requests and responses, valid and invalid; same systematic sweeps as C10 plus random mixture) on long-lived contexts in varied states, plus a marathon of 70 000 EID-changing assignments on one context. For each input decode_packet(x) and then process_packet(x, rb) run on the same context, rb being 64..300 bytes of seeded random poison. Oracle: same message type and payload (offset and length inside the input) or same error value; Some(len) only when decoding succeeded on a control message with the request bit set, len <= rb.len(), rb[len..] == poison; otherwise rb == poison entirely. A process_packet panic on an input that decodes fine is a refuting event keyed by the byte-determined input class. Non-trivial = input judged with both results present; distinct = distinct input byte strings.",
         assumptions: &[
             "decode_packet is read-only (checked by the twin context in C13), so calling it first does not disturb process_packet",
             "validly configured contexts and response buffers of at least 64 bytes",
@@ -118,6 +118,22 @@ fn run(cfg: &RunCfg) -> Report {
             })
         })
     });
+    // marathon: 70 000 EID-changing assignments on ONE context, decode vs process judged on every
+    // step (state that counts accepted requests in 16 bits wraps here)
+    if !small && cfg.shard == 3 % cfg.nshards {
+        let c = CtxCfg { addr: 0x21, types: vec![1, 2, 3], vendors: vec![(0, 0x1234, 1), (1, 0xA1B2_C3D4, 2)] };
+        with_ctx(&c, |ctx| {
+            for i in 0..70_000u32 {
+                let x = crate::refmodel::forge::ctrl_request(0x21, (i % 127) as u8, (i & 0x1F) as u8, false, 0x01, &[(i & 1) as u8, 1 + (i % 253) as u8]);
+                let before = rep.findings.len();
+                check(ctx, &c, &x, 64, i as u64, &mut rep);
+                if rep.findings.len() > before {
+                    break;
+                }
+            }
+        });
+        rep.class("marathon-of-70000-assignments");
+    }
     rep
 }
 
